@@ -2,6 +2,7 @@
 
 #include <array>
 #include <cstring>
+#include <limits>
 #include <memory>
 #include <type_traits>
 #include <utility>
@@ -90,7 +91,14 @@ public:
 
     auto ret = UNSAFE_unverified();
     if (ret != nullptr) {
-      size_t bytes = sizeof(T) * count;
+      // The caller is handed a raw pointer to `count` elements of the pointee
+      // type (void is counted in bytes)
+      using T_El = std::conditional_t<std::is_void_v<T_Pointed>, char, T_Pointed>;
+      detail::dynamic_check(
+        count <= std::numeric_limits<size_t>::max() / sizeof(T_El),
+        "unverified_safe_pointer_because called with a count that overflows "
+        "the address space");
+      size_t bytes = sizeof(T_El) * count;
       detail::check_range_doesnt_cross_app_sbx_boundary<T_Sbx>(ret, bytes);
     }
     return ret;
@@ -602,6 +610,10 @@ private:
       return nullptr;
     }
 
+    detail::dynamic_check(
+      count <= std::numeric_limits<std::size_t>::max() /
+                 sizeof(T_CopyAndVerifyRangeEl),
+      "Range size overflows the address space");
     detail::check_range_doesnt_cross_app_sbx_boundary<T_Sbx>(
       start, count * sizeof(T_CopyAndVerifyRangeEl));
 
